@@ -415,7 +415,7 @@ func (l *LocalKMS) writeImportedKey(ks *tinkpb.Keyset, opts ...kms.PrivateKeyOpt
 		return "", fmt.Errorf("failed to write keyset as json: %w", err)
 	}
 
-	return writeToStore(l.store, buf, opts...)
+	return l.writeToStore(buf, opts...)
 }
 
 func getKeysetInfo(ks *tinkpb.Keyset) (*tinkpb.KeysetInfo, error) {
